@@ -194,7 +194,7 @@ def run(ctx):
     finds = [n for n in ast.walk(ru.node) if isinstance(n, ast.Call) and isinstance(n.func, ast.Attribute) and n.func.attr == 'find'
              and n.args and txt(n.args[0]) == 'delimiter']
     if not finds or len(finds[0].args) < 2 or not isinstance(finds[0].args[1], ast.Name):
-        ctx.ob('T7.look', ru.fq, 'the delimiter search takes a start offset variable', False, loc=ru.loc)
+        ctx.unknown('T7.look', ru.fq, 'no <buffer>.find(delimiter, <start variable>, ...) call found', ru.loc)
     else:
         svar = finds[0].args[1].id
         dl_names = {'len(delimiter)'}
@@ -230,7 +230,7 @@ def run(ctx):
         for a in assigns:
             lf = linear(a.value)
             if lf is None:
-                ctx.ob('T7.look', ru.fq, 'search start `%s` is a linear form of the chunk and delimiter lengths' % txt(a.value), False, loc=loc(ru, a))
+                ctx.unknown('T7.look', ru.fq, 'search start `%s` is not a linear form of the chunk and delimiter lengths' % txt(a.value), loc(ru, a))
                 continue
             if set(lf) <= {''}:
                 ok = lf.get('', 0) == 0
@@ -275,7 +275,7 @@ def run(ctx):
                 ctx.ob('T9.adv', snd.fq, 'after a successful sock.send the sent prefix is cut off the send buffer before any step that '
                        'can raise (a retry after Timeout never re-sends it)', ok, loc=loc(snd, o.node), path=p.describe() if not ok else None)
     if n_send == 0:
-        ctx.ob('T9.adv', snd.fq, 'send loop calls sock.send', False, loc=snd.loc)
+        ctx.unknown('T9.adv', snd.fq, 'no successful sock.send path found', snd.loc)
     for name, callee_args in (('sendall', ['data', 'flags', 'timeout']), ('flush', ["b''"])):
         f = prog.func('%s.%s' % (CLS, name))
         calls = [n for n in ast.walk(f.node) if isinstance(n, ast.Call) and txt(n.func) == 'self.send']
